@@ -14,6 +14,10 @@ TABLES = [
     {'A': 9.96, 'B': 25.4, 'C': 110.75, 'D': 0.29},
     {'A': 10.37002, 'B': 24.90005, 'C': 101.5002, 'D': 0.3300007},      # table 0 moved by ~2e-6
 ]
+WIDE = ['W%02d' % i for i in range(40)]
+for _k, _t in enumerate(TABLES):
+    for _i, _a in enumerate(WIDE):
+        _t[_a] = round((3.0 + 1.37 * _i) * (1 + 0.013 * _k * ((_i % 3) - 1)), 4)
 CLOSES = [pd.Timestamp(t, tz='UTC') for t in ('2020-03-02 21:00', '2020-03-03 21:00', '2020-03-04 21:00', '2020-03-05 21:00')]
 OPENS = [pd.Timestamp(t, tz='UTC') for t in ('2020-03-03 14:30', '2020-03-04 14:30', '2020-03-05 14:30', '2020-03-06 14:30')]
 T0 = pd.Timestamp('2020-03-02 14:30', tz='UTC')
@@ -24,6 +28,7 @@ PRESETS = {
     'long_A_short_C': [('A', 100), ('C', -30)],
     'holds_D': [('D', 40), ('B', 20)],
     'penny': [('D', 1), ('A', 10)],      # one share of an asset quoted below 0.5: orders worth less than half a unit
+    'wide': [],           # a universe of 40 assets, ten of them held at a time, rotating
     'large': [],          # 50,000,000 of funds: positions of millions of shares, adjustments of a few shares
 }
 
@@ -217,7 +222,7 @@ def run(tier, res, is_known):
     for sizer_kind, fee in combos:
         ms = menus(sizer_kind, tier)
         for preset in PRESETS:
-            if preset == 'large':
+            if preset in ('large', 'wide'):
                 continue
             if tier == 'quick' and preset == 'penny' and sizer_kind != 'long_only':
                 continue
@@ -232,10 +237,33 @@ def run(tier, res, is_known):
         if any(not is_known(v) for v in res.violations):
             return
     for sizer_kind in ('long_only', 'long_short'):
+        wm = wide_menus(sizer_kind)
+        if tier == 'quick':
+            wm = [wm[0][::2], wm[1][::2], wm[2]]
+        spec = Spec(sizer_kind, ('pct', '0.001', '0.0005') if sizer_kind == 'long_only' else ('zero',), 'wide', wm)
+        bfs(spec, 3, res, is_known, label='%s, 40-asset universe, rotating holdings' % sizer_kind, recheck=4)
+        if any(not is_known(v) for v in res.violations):
+            return
+    for sizer_kind in ('long_only', 'long_short'):
         spec = Spec(sizer_kind, ('zero',), 'large', large_menus(sizer_kind))
         bfs(spec, 2, res, is_known, label='%s zero fee, large holdings' % sizer_kind, recheck=6)
         if any(not is_known(v) for v in res.violations):
             return
+
+
+def wide_menus(sizer_kind):
+    """40-asset universe, ten names weighted per round, rotating so that the order in which positions were opened is
+    not the ascending symbol order; one round also trades with part of the holdings outside the universe"""
+    sets = [list(range(20, 30)), list(range(0, 5)) + list(range(25, 35)), list(range(10, 20)), list(range(1, 40, 4)),
+            list(range(35, 40)) + list(range(0, 5))]
+    unis = [tuple(WIDE), tuple(WIDE[:33])]
+
+    def alpha(idx):
+        if sizer_kind == 'long_only':
+            return tuple(sorted((WIDE[i], 1.0 + (i % 2)) for i in idx))
+        return tuple(sorted((WIDE[i], 1.0 if i % 2 else -1.0) for i in idx))
+    menu = [(u, alpha(sx), t) for u in unis for sx in sets for t in (0, 2)]
+    return [menu[:10], menu, menu[::3]]
 
 
 def large_menus(sizer_kind):
